@@ -47,12 +47,27 @@ type SkelSpec struct {
 	Calls []string `json:"calls"` // selector suffixes that count as effectful (e.g. "storage.Get", "mu.Lock")
 }
 
+// RouteSpec: a tag-less `switch { case cond: return recv.handler(...) … default: … }` inside Func becomes
+//   def <Name> (<var> : <VarTy>) : String := if cond₁ then "handler₁" else … else "default"
+type RouteSpec struct {
+	Dir      string            `json:"dir"`
+	Recv     string            `json:"recv"`
+	Func     string            `json:"func"`
+	Name     string            `json:"name"`
+	Var      string            `json:"var"`       // the local the conditions are about
+	VarTy    string            `json:"var_ty"`    // its Lean type
+	MethodNS string            `json:"method_ns"` // namespace of methods called on Var (e.g. "packet.Type")
+	ConstNS  string            `json:"const_ns"`
+	PkgNS    map[string]string `json:"pkg_ns"`    // Go package selector -> Gen namespace (e.g. "packet" -> "packet")
+}
+
 type Spec struct {
 	Module  string     `json:"module"`  // output file Gen/<Module>.lean
 	Imports []string   `json:"imports"` // other Gen modules this one refers to
 	Consts []ConstSpec `json:"consts"`
 	Preds  []PredSpec  `json:"preds"`
 	Skels  []SkelSpec  `json:"skels"`
+	Routes []RouteSpec `json:"routes"`
 }
 
 var fset = token.NewFileSet()
@@ -605,6 +620,108 @@ func genSkel(root string, ss *SkelSpec, out *strings.Builder) {
 	fmt.Fprintf(out, "def %s : List String := [%s]\n", ss.Name, strings.Join(qs, ", "))
 }
 
+func (rs *RouteSpec) cond(e ast.Expr) string {
+	switch e := e.(type) {
+	case *ast.ParenExpr:
+		return "(" + rs.cond(e.X) + ")"
+	case *ast.BasicLit:
+		if e.Kind == token.INT {
+			return e.Value
+		}
+	case *ast.Ident:
+		if e.Name == rs.Var {
+			return e.Name
+		}
+		if e.Name == "true" || e.Name == "false" {
+			return e.Name
+		}
+		return rs.ConstNS + "." + e.Name
+	case *ast.SelectorExpr:
+		if x, ok := e.X.(*ast.Ident); ok {
+			if ns, ok := rs.PkgNS[x.Name]; ok {
+				return ns + "." + e.Sel.Name
+			}
+		}
+	case *ast.UnaryExpr:
+		if e.Op == token.NOT {
+			return "(!" + rs.cond(e.X) + ")"
+		}
+	case *ast.BinaryExpr:
+		op := map[token.Token]string{token.LAND: "&&", token.LOR: "||", token.EQL: "==", token.NEQ: "!=", token.AND: "&&&", token.OR: "|||"}[e.Op]
+		if op != "" {
+			return "(" + rs.cond(e.X) + " " + op + " " + rs.cond(e.Y) + ")"
+		}
+	case *ast.CallExpr:
+		if sel, ok := e.Fun.(*ast.SelectorExpr); ok && len(e.Args) == 0 {
+			if x, ok := sel.X.(*ast.Ident); ok && x.Name == rs.Var {
+				return "(" + rs.MethodNS + "." + sel.Sel.Name + " " + rs.Var + ")"
+			}
+		}
+	}
+	die("route %s: unsupported condition %s", rs.Name, exprStr(e))
+	return ""
+}
+
+func genRoute(root string, rs *RouteSpec, out *strings.Builder) {
+	p := loadPkg(root, rs.Dir)
+	key := rs.Func
+	if rs.Recv != "" {
+		key = rs.Recv + "." + rs.Func
+	}
+	fd, ok := p.funcs[key]
+	if !ok {
+		die("route: function %s not found in %s", key, rs.Dir)
+	}
+	var sw *ast.SwitchStmt
+	for _, st := range fd.Body.List {
+		if s, ok := st.(*ast.SwitchStmt); ok && s.Tag == nil {
+			if sw != nil {
+				die("route %s: more than one tag-less switch", rs.Name)
+			}
+			sw = s
+		}
+	}
+	if sw == nil {
+		die("route %s: no tag-less switch in %s", rs.Name, key)
+	}
+	handlerOf := func(body []ast.Stmt) string {
+		for _, st := range body {
+			var call *ast.CallExpr
+			switch st := st.(type) {
+			case *ast.ReturnStmt:
+				if len(st.Results) == 1 {
+					call, _ = st.Results[0].(*ast.CallExpr)
+				}
+			case *ast.ExprStmt:
+				call, _ = st.X.(*ast.CallExpr)
+			}
+			if call != nil {
+				if sel, ok := call.Fun.(*ast.SelectorExpr); ok {
+					if x, ok := sel.X.(*ast.Ident); ok && fd.Recv != nil && len(fd.Recv.List[0].Names) == 1 && x.Name == fd.Recv.List[0].Names[0].Name {
+						return sel.Sel.Name
+					}
+				}
+			}
+		}
+		return "default"
+	}
+	fmt.Fprintf(out, "def %s (%s : %s) : String :=\n", rs.Name, rs.Var, rs.VarTy)
+	def := "default"
+	for _, cc := range sw.Body.List {
+		c := cc.(*ast.CaseClause)
+		if c.List == nil {
+			def = handlerOf(c.Body)
+			continue
+		}
+		conds := []string{}
+		for _, e := range c.List {
+			conds = append(conds, rs.cond(e))
+		}
+		fmt.Fprintf(out, "  if %s then %s else\n", strings.Join(conds, " || "), leanStr(handlerOf(c.Body)))
+	}
+	fmt.Fprintf(out, "  %s\n", leanStr(def))
+}
+
 func selStr(e ast.Expr) string {
 	switch e := e.(type) {
 	case *ast.Ident:
@@ -678,6 +795,9 @@ func genModule(repo string, spec *Spec, outDir string) {
 			genSkel(repo, &spec.Skels[i], &cs)
 		}
 		cs.WriteString("end Skel\n\n")
+	}
+	for i := range spec.Routes {
+		genRoute(repo, &spec.Routes[i], &cs)
 	}
 	cs.WriteString("end Gen\n")
 	writeIfChanged(filepath.Join(outDir, spec.Module+".lean"), cs.String())
